@@ -51,10 +51,21 @@ def gen_cases(rng, tier):
       model = spec.numeric_species(rng, model)      # species labelled '9', '10', '2', '100'
     if i % 12 == 3 and groute == "potable":
       model = spec.ion_labels(rng, model)           # species labelled 'F-', 'Na+', 'Ca2+': 'F-->Ca' in A->B keys
+    if i % 12 == 5:
+      # [Species] overrides that are exactly zero for a species the built-in element table knows: an override is an override,
+      # whatever its truth value
+      known = [x for x in (model.get("all_species") or []) if x in spec.ELEMENT_DATA]
+      if known:
+        d_ = model.setdefault("species", {}).setdefault(known[0], {})
+        d_["atomic_number"] = 0
+        if i % 24 == 5:
+          d_["atomic_mass"] = 0.0
     if groute == "api":
       model["api_containers"] = rng.choice([None, None, "tuple", "generator", "map", "amend_after_write"])
       if i % 3 == 1:
         model["api_density_lookup"] = "on_demand"     # functions made on lookup: a new callable object per access
+      elif i % 3 == 2 and model.get("api_containers") != "amend_after_write":
+        model["api_refit"] = 1                        # the state behind the functions changes between two writes
       if i % 4:
         # functions that return 0-d numpy arrays: fresh ones, integer-typed ones where the value is whole, memoised ones
         # (the same array object again for the same separation - it must come back unchanged)
@@ -78,6 +89,24 @@ def gen_cases(rng, tier):
 
 
 def produce(ctx, model, route, rng):
+  if model.get("api_refit") and route.startswith("api"):
+    # a fitting loop: the table is written, the state behind the functions is refined, the table is written again with the
+    # same function objects (and a fresh tabulation object) - the second table holds the refined functions
+    ctx.cls("functions_refined_between_two_writes")
+    routes.refit_begin()
+    try:
+      try:
+        _produce(ctx, model, route, rng)
+      except Exception:
+        pass
+      routes.refit_end()
+      return _produce(ctx, model, route, rng)
+    finally:
+      routes.refit_done()
+  return _produce(ctx, model, route, rng)
+
+
+def _produce(ctx, model, route, rng):
   t = model["tab"]
   if route == "cli":
     res = routes.run_potable(["@IN", "@OUT"], emit.model_text(model, emit.Style(rng)))
